@@ -132,8 +132,9 @@ func runC20(seed uint64, n int, tier string, outDir string) []*Stats {
 	// ---- contexts and plugins on the real pkg/api
 	cenv := &ctxEnv{st: st, tmp: tmp}
 	runContexts(r, cenv, n, tier)
-	hf := NewCoqFile("From V Require Import Common.Base C20.CtxLTS C20.CtxSpec C20.PluginSpec C20.Harness.")
+	hf := NewCoqFile("From V Require Import Common.Base C20.CtxLTS C20.CtxSpec C20.PluginSpec C20.WatchServe C20.Harness.")
 	hf.AddCases("hist_cases", "list label", "check_hist", cenv.histCase)
+	hf.AddCases("watch_cases", "list label", "(fun _ : list (list label) => check_watch hist_cases)", nil)
 	hf.AddCases("trace_cases", "nat * nat * list pevent", "check_trace", cenv.traceCase)
 	if err := os.WriteFile(filepath.Join(outDir, "c20_hist_cases.v"), []byte(hf.String()), 0o644); err != nil {
 		panic(err)
